@@ -124,7 +124,15 @@ def run(ctx):
         arr["seconds"] = [p[0] for p in pairs]
         arr["second_fractions"] = np.array([p[1] for p in pairs], dtype=np.uint64)
         try:
-            arr_out = TimestampArray(arr).as_datetime64(res).astype("int64")
+            ta = TimestampArray(arr)
+            before = np.asarray(arr).tobytes()
+            arr_out = ta.as_datetime64(res).astype("int64")
+            again = ta.as_datetime64(res).astype("int64")
+            # raw timestamps survive bit-exactly: converting does not touch the stored (seconds, fractions), and is repeatable
+            if np.asarray(arr).tobytes() != before or np.asarray(ta).tobytes() != before:
+                violations.append(Violation("TimestampArray.as_datetime64(%r) modified the raw timestamps it converts" % res, dict(kind="array", res=res)))
+            if not np.array_equal(arr_out, again):
+                violations.append(Violation("TimestampArray.as_datetime64(%r) called twice on the same array gives different results" % res, dict(kind="array", res=res)))
         except Exception as ex:
             violations.append(Violation("TimestampArray.as_datetime64(%r) raised %r" % (res, ex), dict(kind="array", res=res)))
             continue
